@@ -141,8 +141,12 @@ class Hypervolume(Indicator):
 
     def invert(self, solution):
         for i in range(solution.problem.nobjs):
+            value = max(0.0, min(1.0, solution.normalized_objectives[i]))
+
             if solution.problem.directions[i] == Direction.MINIMIZE:
-                solution.normalized_objectives[i] = 1.0 - max(0.0, min(1.0, solution.normalized_objectives[i]))
+                value = 1.0 - value
+
+            solution.normalized_objectives[i] = value
 
     def dominates(self, solution1, solution2, nobjs):
         better = False
@@ -221,7 +225,11 @@ class Hypervolume(Indicator):
     def calculate(self, set):
         feasible = [s for s in set if s.constraint_violation == 0.0]
         normalize(feasible, self.minimum, self.maximum)
-        feasible = [s for s in feasible if all([o <= 1.0 for o in s.normalized_objectives])]
+
+        # exclude solutions worse than the nadir point in any objective
+        directions = set[0].problem.directions if len(feasible) > 0 else []
+        feasible = [s for s in feasible if all([o <= 1.0 if directions[i] == Direction.MINIMIZE else o >= 0.0
+                                                for i, o in enumerate(s.normalized_objectives)])]
 
         if len(feasible) == 0:
             return 0.0
